@@ -2,7 +2,7 @@
    numbers below 2^W as W-bit vectors, `2^W - 1 - x` as bitwise complement,
    closure of the bitwise operators, addition of a fresh high bit. *)
 Require Import Cirbo.Model.Base.
-Open Scope N_scope.
+Local Open Scope N_scope.
 
 Lemma lt_pow2_bits_high x W m : x < 2 ^ W -> W <= m -> N.testbit x m = false.
 Proof.
